@@ -393,3 +393,5 @@ def run(ctx):
     rule_lists(ctx)
     rule_unknown(ctx)
     rule_type_check(ctx)
+    from .common import rule_decorated_object
+    rule_decorated_object(ctx, "C11.7-decorated-object-handlers", "subscribe", "_subscribe", "is_handler", True)
